@@ -4,9 +4,8 @@
 // Assumed library contracts and the STATED START-UP ASSUMPTION (PersistMetadata without the lock): .trusted/r5I.spec.
 // Life-cycle records r5ILoads / r5IExits / r5INews: nsqd/zz_contracts_r5I_verif.go.
 //
-// logFatal (one line: lg.LogFatal -> log line, os.Exit(1)) has NO contract of its own: a function that never returns cannot carry one
-// (the vacuity guard demands a reachable return). It is inlined at every call site down to os.Exit, whose assumed contract
-// (hfile.spec: "does not return") ends the path - so "a failure is fatal" is checked at the callers: on every path that RETURNS
+// logFatal (one line: lg.LogFatal -> log line, os.Exit(1)): `noreturn` contract in zz_contracts_r7_verif.go (round 7; until then it was
+// inlined at every call site down to os.Exit, whose assumed contract - hfile.spec: "does not return" - ends the path) - so "a failure is fatal" is checked at the callers: on every path that RETURNS
 // from Init / Start the failing call did not fail.
 
 package main
